@@ -121,6 +121,16 @@ def _run(ck: core.Check, pool):
                           "kind": rng.choice(P.FAULT_KINDS), "at": rng.choice(["init", "run"]),
                           "exc_id": rng.randrange(len(L.EXC_CLASSES))})
         tasks.append({"level": "off", "steps": steps, "sel": sel, "seed": rng.randrange(10**6)})
+    # fixed cases: constants spox propagates by itself (no backend): strings as str / UTF-8 bytes, NULs, non-ASCII
+    fixed_consts = [
+        [{"op": "const", "how": "value_string", "data": "ü", "bytes": True}],
+        [{"op": "const", "how": "value_strings", "data": ["ü", "a", "日本"], "bytes": True}],
+        [{"op": "const", "how": "value_string", "data": "a\0b"}, {"op": "const", "how": "value_strings", "data": ["a\0", ""]}],
+        [{"op": "const", "how": "value_string", "data": "hello", "bytes": True}, {"op": "identity", "args": [0]}],
+    ]
+    for steps in fixed_consts:
+        for sel in ("reference", "onnxruntime"):
+            tasks.append({"level": "off", "steps": steps, "sel": sel, "seed": 1})
     pending = pool.map_async(_prog_task, tasks, chunksize=4)
 
     # ---- prove
